@@ -163,6 +163,7 @@ class Engine:
         self.hooks: Dict[str, Callable] = {}     # callee name -> python model(engine, term, args) -> value
         self.trail: List[int] = []
         self.stop_after: Callable[[str], bool] = lambda n: False   # end the path right after observing such a call
+        self.pre_atomic: Optional[Callable[[Any, str, str], None]] = None   # interference model: called before every atomic access (engine, cell, op)
 
     # ---- helpers ---------------------------------------------------------------
     def add_obs(self, o: Obs):
@@ -761,6 +762,8 @@ class Engine:
             elif isinstance(a, Ptr) and self._owner_type(a.what) == 'HashMap' and targets and any(may_write(self.prog, f) for f in targets):
                 # a crate function that receives the map may write any of its cells
                 for c in list(self.cells):
+                    if c.startswith('__'):
+                        continue        # ghost entries of a client analysis
                     ty = self.cell_ty.get(c, 'isize')
                     self.cells[c] = Ptr(fresh_bv(c + '_havoc', 64), c) if ty == 'ptr' else self.fresh_of_type(ty, c + '_havoc')
         self.write_place(fr, t.place, self.fresh_of_type(dty, 'ret_' + name.split('::')[-1]))
@@ -860,6 +863,8 @@ class Engine:
         # ---- std atomics on named cells ----
         if 'sync::atomic::Atomic' in name and args and isinstance(args[0], CellRef):
             c = args[0].name
+            if self.pre_atomic is not None:
+                self.pre_atomic(self, c, last)
             cur = self.cell(c)
             if last == 'load':
                 return cur
@@ -895,6 +900,8 @@ class Engine:
         if name.startswith('reclaim::Atomic::') and args and isinstance(args[0], CellRef):
             c = args[0].name
             self.cell_ty.setdefault(c, 'ptr')
+            if self.pre_atomic is not None:
+                self.pre_atomic(self, c, last)
             if c not in self.cells:
                 self.cells[c] = Ptr(fresh_bv(c, 64), c)
             cur = self.cells[c]
